@@ -497,6 +497,48 @@ func init() {
 						}
 						e.mr.FlushAll()
 					}
+					// the Host the proxy sees matches NONE of the configured cookie domains (a fronting proxy rewrote it): the
+					// deletion must still name the domain (and path) the session cookie was set with in that same situation
+					if dom != nil {
+						const h = "oauth2-proxy.internal:4180"
+						hb := newBrowser()
+						sr := e.do(reqSpec{Target: e.opts.ProxyPrefix + "/start?rd=%2F", Host: h})
+						if sr.raw != nil {
+							hb.apply(sr.raw)
+						}
+						if cb, _, err := e.idp.authorize(sr.Location, u); err == nil {
+							if cu, perr := url.Parse(cb); perr == nil {
+								cr := e.do(reqSpec{Target: cu.RequestURI(), Cookie: hb.cookieHeader(), Host: h})
+								setWith := map[string][2]string{}
+								for _, ck := range cr.Cookies {
+									if isSessionCookieNameH(e.opts.Cookie.Name, ck.Name) && ck.MaxAge >= 0 && ck.Value != "" {
+										setWith[ck.Name] = [2]string{ck.Domain, ck.Path}
+									}
+								}
+								if cr.raw != nil {
+									hb.apply(cr.raw)
+								}
+								if len(setWith) > 0 {
+									so := e.do(reqSpec{Target: e.opts.ProxyPrefix + "/sign_out", Cookie: hb.cookieHeader(), Host: h})
+									c.casen(fmt.Sprintf("c11|foreign-host|%v|%v|%s", redis, dom, path), fmt.Sprint(so.Status))
+									c.count("signout:foreign-host")
+									for n, dp := range setWith {
+										ok := false
+										for _, ck := range so.Cookies {
+											if ck.Name == n && ck.MaxAge < 0 && ck.Domain == dp[0] && ck.Path == dp[1] {
+												ok = true
+											}
+										}
+										if !ok {
+											c.violation("C11", "sign-out does not delete a session cookie under the domain and path it was set with (request Host matches none of the configured cookie domains)",
+												map[string]interface{}{"cookie": n, "set_with_domain": dp[0], "set_with_path": dp[1], "host": h, "cookie_domains": dom,
+													"sign_out_set_cookie": so.Header.Values("Set-Cookie"), "redis": redis})
+										}
+									}
+								}
+							}
+						}
+					}
 					// a sign-out that cannot remove the stored session is an error, not the redirect
 					if redis {
 						b := newBrowser()
@@ -535,7 +577,7 @@ func init() {
 				}
 			}
 		}
-		c.close([]string{"serve:signout", "signout:replay", "signout:del-fault", "signout:parts-1", "signout:refresh-at-signout", "signout:during-refresh", "signout:outage"})
+		c.close([]string{"serve:signout", "signout:replay", "signout:del-fault", "signout:parts-1", "signout:refresh-at-signout", "signout:during-refresh", "signout:outage", "signout:foreign-host"})
 	})
 
 	registerSuite("cookieattrs", func(c *suiteCtx) {
